@@ -11,6 +11,11 @@ CLAIMED = {
     technique='ast typestate invariant over all sub-tape handlers (return-flag scoping), alias/copy classification of EVAL sub-tape fields, cross-table agreement query (VM table vs docs.md vs language_spec.md vs compiler/decompiler case labels)',
     text='Decides the clauses of C06 whose truth is in the shape of the code: RETURN scoping as an inductive invariant over every handler that runs a sub-tape (IF/IF_ELSE/TRY_EXCEPT transparent, CALL consumes, EVAL consumes unless eval_return, nothing may raise while the flag is pending), EVAL isolation (definitions and flags are copies), and agreement of the five opcode tables. Per-op operand orders, numeric results and boundary behaviour quantify over runtime values and are not decided.',
     note='Trusted: CPython ast, tsa analyser. Assumes handlers are reached only via run_tape dispatch or the handler->handler calls in the call graph.'),
+ 'C08': dict(
+    level='proof', ref='DESIGN.md 4 C08',
+    technique='ast who-may-write analysis: interprocedural fixpoint of cache holders, key-kind classification of every dict mutation site, in-place-mutation and escape rules',
+    text='Proof by exhaustive site enumeration: every statement that can mutate the run cache in any function reachable from run_tape (and in the top-level drivers) is found by an interprocedural who-holds-the-cache fixpoint, and each is shown to use a key whose kind cannot be str (bytes constant, bytes from tape/stack, or the private tuple sentinel); values loaded under str keys are never mutated in place and the cache never escapes to unanalysed code. With Python dict semantics and the premise of the property (no plugin/contract) this implies str-keyed entries are unchanged at every step of every script. All obligations must discharge for the proof level; evidence downgrades itself to other otherwise.',
+    note='Trusted base: CPython ast, the tsa analyser, Python dict semantics; Tape.read returns bytes and Stack.put admits only bytes (both re-checked on every run as C08.T).'),
  'C09': dict(
     level='other', ref='DESIGN.md 4 C09',
     technique='ast who-flows-where analysis over every Tape(...) construction and run_tape call site, abstract evaluation of set_tape_flags under aliasing, path-count dataflow for plugin runs, who-may-write rule for flags, guard dominance',
